@@ -103,6 +103,9 @@ var ExcludedForms = []ExcludedForm{
 	{"dash_iface", "DashI%d interface{} `parquet:\"-\"`", ""},
 	{"dash_escaped_quote", "DashE%d string `example:\"\\\"n/a\\\"\" parquet:\"-\"`", ""},
 	{"dash_many_keys", "DashN%d int32 `a:\"1\" b:\"x y\" parquet:\"-\" c:\"z:w\"`", ""},
+	{"lower_anon_struct", "q%d struct{ A int32 }", ""},
+	{"dash_anon_struct", "DashA%d struct{ Q string } `parquet:\"-\"`", ""},
+	{"dash_func_named_params", "DashG%d func(X int32, Y string) bool `parquet:\"-\"`", ""},
 	{"multi_name_unexported", "ma%d, mb%d int32", ""},
 	// "share": the excluded name is ADDED TO THE DECLARATION of the exported field that follows
 	// (F1 int32 becomes F1, hid1 int32); at the end of a struct it degrades to an inserted field
